@@ -1,16 +1,17 @@
-"""C06 -- thin module (to be enriched): geometry engine with this property's oracles."""
+"""C06 -- boundary normals are finite outward unit vectors"""
 from . import geo_cases
 from .. import geosim
 from .geo_common import *  # noqa
 
 ID = "C06"
 LEVEL = "exploration"
-RULE = "see DESIGN.md"
-ASSUMPTIONS = GEO_ASSUMPTIONS
+PROBES = ('normals_judged', 'normals_corner_judged', 'edge0', 'edge1', 'lattice', 'half')
+RULE = ("boundary expressions of primitives and of nested +,-,& of primitives (both vertex orientations, parameter batches), points from the library's own boundary samplers (random and grid) under SimRNG with corner-producing faults (edge0/edge1/lattice/half put draws exactly on corners and edge ends); oracle: normal finite, | |n|-1 | <= 1e-4, margin(p+h n) < 0 and margin(p-h n) > 0 with h = 2e-3 at points with a single boundary feature within 5h; at corners of one primitive the weak form (along leaves, against is more inside than along); junctions of Boolean boundaries are skipped. non-trivial = at least one normal judged; distinct = (feature cell, fired fault kinds)")
+ASSUMPTIONS = GEO_ASSUMPTIONS + ['normals of translated/rotated domains and products do not exist in the library and are outside C06', 'points within 1e-2 of a junction of two boundary pieces of a Boolean expression are not judged (outwardness ambiguous)']
 
 
 def budget(tier):
-    return {"cases": 4000 if tier == "quick" else 100000, "wall": 600 if tier == "quick" else 3300,
+    return {"cases": 6000 if tier == "quick" else 200000, "wall": 600 if tier == "quick" else 3300,
             "shrink": 80, "det_legs": 6}
 
 
@@ -20,5 +21,5 @@ def gen_case(seed, tier="quick"):
 
 def run_case(case):
     rec = geosim.run_case(case, props=(ID,))
-    finish(rec, case, judged_key="rows_judged")
+    finish(rec, case, judged_key='normals_judged')
     return rec
